@@ -36,9 +36,8 @@ def _surf(name, mesh, sym, rng, **kw):
     s = pipelines.aero_surface(name, mesh, sym, S_ref_type=str(rng.choice(["wetted", "projected"])),
                                with_viscous=bool(rng.integers(2)), k_lam=float(rng.choice([0.0, 0.05, 0.4, 1.0])),
                                CL0=float(rng.uniform(0, 0.05)), CD0=float(rng.uniform(0, 0.02)))
-    s["symmetry"] = gen.flag(rng, sym)
     s.update(kw)
-    return s
+    return gen.flagify(rng, s)
 
 
 # ---------------------------------------------------------------------------------------
@@ -56,9 +55,12 @@ def c05_reference(rng, tier):
         sym = syms[k]
         if not sym and ny % 2 == 0:
             ny += 1
+        if sym and ns > 1 and ny < 3:
+            ny = 3          # with a single spanwise panel the spanwise order of a half surface cannot be observed
         # when a symmetric (half) surface is present the configuration must be mirror symmetric as a whole:
-        # full-span surfaces are then generated without jitter (rand_mesh is mirror symmetric without it)
-        mesh = gen.rand_mesh(rng, nx, ny, sym, right=bool(sym and rng.uniform() < 0.3), jitter=0.0 if anysym else 0.02)
+        # full-span surfaces are then generated without jitter (rand_mesh is mirror symmetric without it);
+        # left- and right-half descriptions are mixed freely within one list
+        mesh = gen.rand_mesh(rng, nx, ny, sym, right=bool(sym and rng.uniform() < 0.5), jitter=0.0 if anysym else 0.02)
         mesh[:, :, 0] += 5.0 * k; mesh[:, :, 2] += 0.8 * k
         surfaces.append(pipelines.aero_surface("s%d" % k, mesh, sym))
     rotational = bool(rng.uniform() < 0.4)
